@@ -29,7 +29,7 @@ import (
 
 const Implemented = true
 
-var ops = []string{"reload", "sign(0,1)", "sign(2,1;reversed)", "sign+offset(0,2)", "abort-silence(0,1)", "abort-tamper(1,2)"}
+var ops = []string{"reload", "sign(0,1)", "sign(2,1;reversed)", "sign+offset(0,2)", "sign+offset0(1,2)", "abort-silence(0,1)", "abort-tamper(1,2)"}
 
 type session struct {
 	R      []byte
@@ -244,6 +244,10 @@ func (w *world) apply(op string) {
 		w.sign([]int{0, 1}, false, "silence", nil, nil, pub, "silence")
 	case "abort-tamper(1,2)":
 		w.sign([]int{1, 2}, false, "tamper", nil, nil, pub, "tamper")
+	case "sign+offset0(1,2)":
+		// the HD entry point with the offset of the empty path (0): the key signed for is the stored key itself,
+		// so the stored data is what the session is given
+		w.sign([]int{1, 2}, false, "", big.NewInt(0), nil, w.ec[0].ECDSAPub, "offset0")
 	case "sign+offset(0,2)":
 		// the caller's workflow: derive, adjust a deep copy of the stored data, sign with the offset
 		var copies []eckg.LocalPartySaveData
